@@ -12,7 +12,11 @@ import numpy as np
 
 from props import c07 as base
 
-RULE = ('reversible irreducible chains from symmetric integer weight matrices (3..10 states, random sparsity, '
+RULE = ('[edge families: metastable, banded 257..511 states (model skipped), entries ~1e-13, self-transition 1-1e-9, source '
+        'adjacent only to a sink, all states but one absorbing, sinks ids below source ids unsorted, index args as '
+        'list/tuple/range/scalars/int8..int64 arrays, tprob C/Fortran/negative-stride/float32, populations ndarray/list/tuple/'
+        'float32, keyword vs positional, same objects reused across committors->fluxes->net fluxes->populations] '
+        'reversible irreducible chains from symmetric integer weight matrices (3..10 states, random sparsity, '
         'zero and non-zero diagonals; stationary populations = row weight / total weight, exact), plus non-reversible '
         'chains for the definitional clauses only; ALL disjoint non-empty source/sink pairs (sizes <= 3) leaving at '
         'least one intermediate state on small chains, random pairs on larger ones, shuffled order; populations given '
@@ -34,21 +38,7 @@ REL_CAP = 1e-2     # a comparison whose rounding allowance exceeds 1 % of its sc
 CONTAINERS = base.CONTAINERS
 
 
-def exact_pi_reversible(T):
-    """for T = C / rowsum(C) with symmetric C the stationary vector is rowsum/total; recover it exactly
-    from T by detailed balance along a spanning tree (independent of the Lean model)"""
-    n = len(T)
-    w = [None] * n
-    w[0] = F(1)
-    stack = [0]
-    while stack:
-        i = stack.pop()
-        for j in range(n):
-            if w[j] is None and T[i][j] != 0 and T[j][i] != 0:
-                w[j] = w[i] * T[i][j] / T[j][i]
-                stack.append(j)
-    tot = sum(w)
-    return [x / tot for x in w]
+exact_pi_reversible = base.exact_pi_reversible
 
 
 def oracle_committors(Tf, src, snk):
@@ -64,7 +54,13 @@ def oracle_committors(Tf, src, snk):
     return q
 
 
+REVERSIBLE_KINDS = ('rev', 'meta-rev', 'sticky', 'tiny-rev', 'pendant', 'rev-dyadic', 'banded')
+NPMATRIX_KEY = 'reactive-fluxes-np-matrix'
+
+
 def requests(case):
+    if not case.get('model', True):
+        return []
     rq = {'op': 'C08.tpt', 'T': case['T'], 'sources': case['sources'], 'sinks': case['sinks']}
     if case['pops'] != ['none']:      # populations=None only: the model computes them too (eqProbs)
         rq['pi'] = case['pi']
@@ -78,60 +74,107 @@ def dense_of(x):
 
 def check_case(ctx, case, resp):
     from enspara import tpt
-    T = base.t_from_json(case['T'])
+    T = base.case_T(case)
     n = len(T)
     Tf = base.t_float(T)
     src, snk = case['sources'], case['sinks']
     inter = [i for i in range(n) if i not in src and i not in snk]
-    reversible = case['kind'] in ('rev', 'meta-rev')
-    pi = np.array([a / b for a, b in case['pi']], dtype=float)      # exact stationary vector, rounded
+    reversible = case['kind'] in REVERSIBLE_KINDS
+    use_model = case.get('model', True)
+    if 'pi' in case and case['pi'] is not None:
+        pi_exact = np.array([a / b for a, b in case['pi']], dtype=float)      # exact stationary vector, rounded
+    else:
+        pi_exact = np.array([float(x) for x in exact_pi_reversible(T)])
     q = oracle_committors(Tf, src, snk)
-    f_ref = (pi * (1 - q))[:, None] * Tf * q[None, :]
-    np.fill_diagonal(f_ref, 0.0)
-    carries = bool(inter) and float(np.max(f_ref[inter])) > 0
-    # rounding allowances, propagated from what binary64 can deliver on a slowly mixing chain (gap = distance of the
-    # second eigenvalue from 1): committors |dq| <= 2e-15/gap (observed <= 1.6e-16/gap), computed populations
-    # relative 1e-13/gap (observed <= 3.2e-15/gap); f = pi T (1-q_i) q_j  =>  |df| <= 2 dq max(pi_i T_ij) + dpi f.
-    # All flux comparisons are RELATIVE to the flux scale fs.  Ordinary chains (gap >= 1e-2): allowance ~ 1e-9 fs.
+    # rounding allowances, propagated from what binary64 can deliver:
+    #  * committors |dq| <= 2e-15/g, g = min(spectral gap, smallest exit probability 1 - T_ii)  (observed <= 1.6e-16/g)
+    #  * computed populations: relative 1e-13/gap (observed <= 3.2e-15/gap) and 1e-14/pi_min (LAPACK eig is absolute-accurate)
+    #  * f = pi T (1-q_i) q_j  =>  |df| <= 2 dq max(pi_i T_ij) + dpi f.
+    # All flux comparisons are RELATIVE to the flux scale fs.  Ordinary chains: allowance ~ 1e-9 fs.
     fac, gap = base.cond_factor(Tf)
-    dq, dpi = 2e-15 / gap, 1e-13 / gap
-    fs = float(np.max(f_ref))
-    piT = pi[:, None] * Tf
-    np.fill_diagonal(piT, 0.0)
-    ftol = TOL * fs + 2 * dq * float(np.max(piT)) + dpi * fs
-    flux_ok = fs > 0 and ftol <= REL_CAP * fs
-    dens_ref = pi * q * (1 - q)
-    N_ref = float(dens_ref.sum())
-    ptol = (2 * dq / N_ref + dpi + TOL) if N_ref > 0 else np.inf
-    pop_ok = ptol <= REL_CAP
+    stick = base.stickiness(Tf)
+    dq = 2e-15 / min(gap, stick)
+    dpi = max(1e-13 / gap, 1e-14 / base.pi_min(Tf))
+    minp = 1e-14 / stick                      # float chain vs exact rational chain (model comparisons only)
     if fac > 1:
         ctx.tag('slow-mixing gap<1e-%d' % int(np.floor(-np.log10(gap))))
-    ctx.case({k: case[k] for k in ('T', 'sources', 'sinks')}, nontrivial=carries,
-             tags=['kind=' + case['kind'], 'n=%d' % n, 'nsrc=%d' % len(src), 'nsnk=%d' % len(snk),
-                   'ninter=%d' % min(len(inter), 4), 'argform=' + case['argform']])
+    if stick < 1e-3:
+        ctx.tag('sticky-state exit<1e-%d' % int(np.floor(-np.log10(stick))))
 
-    def fail(what, **extra):
-        ctx.violation(what, dict(case, **extra))
+    def refs(pi):
+        f_ref = (pi * (1 - q))[:, None] * Tf * q[None, :]
+        np.fill_diagonal(f_ref, 0.0)
+        fs = float(np.max(f_ref))
+        piT = pi[:, None] * Tf
+        np.fill_diagonal(piT, 0.0)
+        ftol = TOL * fs + 2 * dq * float(np.max(piT)) + dpi * fs
+        dens = pi * q * (1 - q)
+        N = float(dens.sum())
+        ptol = (2 * dq / N + dpi + TOL) if N > 0 else np.inf
+        return f_ref, fs, ftol, dens, N, ptol
 
-    m = resp[0]
-    model_ok = 'ok' in m
-    zero_norm = model_ok and isinstance(m['ok']['pop'], dict)      # model: zero-division
+    f_ref0, fs0, ftol0, _, N0, ptol0 = refs(pi_exact)
+    carries = bool(inter) and float(np.max(f_ref0[inter])) > 0
+    kw = case.get('callstyle') == 'kw'
+    ctx.case(dict(base.case_id(case), sources=src, sinks=snk), nontrivial=carries,
+             tags=['kind=' + case['kind'], 'n=%d' % n if n <= 10 else 'n>255' if n > 255 else 'n>10',
+                   'nsrc=%d' % min(len(src), 4), 'nsnk=%d' % min(len(snk), 4),
+                   'ninter=%d' % min(len(inter), 4), 'argform=' + case['argform'], 'mode=' + case.get('mode', '?'),
+                   'call=keyword' if kw else 'call=positional'] + base.order_tags(src, snk))
+
+    m = resp[0] if use_model else None
+    model_ok = use_model and 'ok' in m
+    if use_model:
+        zero_norm = model_ok and isinstance(m['ok']['pop'], dict)      # model: zero-division
+    else:
+        ctx.tag('model-skipped-large-n')
+        zero_norm = N0 == 0
     dense_out = None
     for cont in ['ndarray'] + case['containers']:
         for pops in case['pops']:
             X = base.to_container(Tf, cont)
             a_src, a_snk = base.as_arg(src, case['argform']), base.as_arg(snk, case['argform'])
-            p = None if pops == 'none' else np.array(pi, copy=True)
+            p, pi = base.pops_arg(pi_exact, pops)
+            f_ref, fs, ftol, dens_ref, N_ref, ptol = refs(pi)
+            f32 = pops == 'given-f32' or cont == 'float32'
+            if cont == 'float32' and pops == 'none':
+                # a float32 tprob makes the library's own eq_probs single precision (relative 1e-7 on the populations)
+                ftol += 1e-5 * fs
+                ptol += 1e-5
+            flux_ok = fs > 0 and ftol <= REL_CAP * fs
+            pop_ok = ptol <= REL_CAP
             before = (base.snap(X), base.snap(a_src), base.snap(a_snk), base.snap(p))
             where = dict(container=cont, pops=pops)
+            key = NPMATRIX_KEY if cont == 'npmatrix' else None
+
+            def fail(what, **extra):
+                ctx.violation(what, dict(case, **extra), key=key)
+
             ctx.tag('container=' + cont)
             ctx.tag('pops=' + pops)
-            rf = base.call(tpt.reactive_fluxes, X, a_src, a_snk, populations=p)
-            rg = base.call(tpt.net_fluxes, X, a_src, a_snk, populations=p)
-            rp = base.call(tpt.reactive_populations, X, a_src, a_snk, populations=p)
+            if case.get('reuse'):
+                rq1 = base.call(tpt.committors, X, a_src, a_snk)
+            if kw:
+                rf = base.call(tpt.reactive_fluxes, tprob=X, sources=a_src, sinks=a_snk, populations=p)
+                rg = base.call(tpt.net_fluxes, tprob=X, sources=a_src, sinks=a_snk, populations=p)
+                rp = base.call(tpt.reactive_populations, tprob=X, sources=a_src, sinks=a_snk, populations=p)
+            else:
+                rf = base.call(tpt.reactive_fluxes, X, a_src, a_snk, p)
+                rg = base.call(tpt.net_fluxes, X, a_src, a_snk, p)
+                rp = base.call(tpt.reactive_populations, X, a_src, a_snk, p)
             for nm, r in (('reactive_fluxes', rf), ('net_fluxes', rg), ('reactive_populations', rp)):
                 if 'error' in r:
                     return fail('tpt.%s raised %s' % (nm, r['error']), failing=nm, **where)
+            if case.get('reuse'):
+                # the SAME objects went through committors -> fluxes -> net fluxes -> populations -> committors
+                ctx.tag('reuse-same-objects container=' + cont)
+                rq2 = base.call(tpt.committors, X, a_src, a_snk)
+                rf2 = base.call(tpt.reactive_fluxes, X, a_src, a_snk, populations=p)
+                if 'error' in rq1 or 'error' in rq2 or 'error' in rf2:
+                    return fail('a repeated call on the same argument objects raised', failing='reuse', **where)
+                if not np.array_equal(np.asarray(rq1['ok']), np.asarray(rq2['ok'])) \
+                        or not np.array_equal(dense_of(rf['ok']), dense_of(rf2['ok'])):
+                    return fail('results change when the same argument objects are used again', failing='reuse', **where)
             if (base.snap(X), base.snap(a_src), base.snap(a_snk), base.snap(p)) != before:
                 return fail('tpt flux functions modified their inputs', failing='inputs', **where)
             f, g = dense_of(rf['ok']), dense_of(rg['ok'])
@@ -143,81 +186,92 @@ def check_case(ctx, case, resp):
                 return fail('reactive flux not zero on the diagonal', failing='flux-diagonal', **where)
             if not flux_ok:
                 ctx.skip('flux comparisons relative to the flux scale: rounding allowance > 1 %% of the scale (gap %.0e)'
-                         % 10 ** np.floor(np.log10(gap)))
+                         % 10 ** np.floor(np.log10(min(gap, stick))))
             elif np.max(np.abs(f - f_ref)) > ftol:
                 return fail('reactive flux differs from pi_i q-_i T_ij q+_j by %.3g (flux scale %.3g, allowance %.3g)'
                             % (np.max(np.abs(f - f_ref)), fs, ftol),
-                            failing='flux-definition', got=f.tolist(), **where)
+                            failing='flux-definition', got=f.tolist()[:12], **where)
             # --- net flux is the positive part of f - f^T (of the real f), one direction per pair
             d = f - f.T
-            if np.max(np.abs(g - np.where(d > 0, d, 0.0))) > 1e-15:
+            if np.max(np.abs(g - np.where(d > 0, d, 0.0))) > 1e-15 * max(1.0, fs):
                 return fail('net flux is not the positive part of f - f^T', failing='net-definition',
-                            got=g.tolist(), **where)
+                            got=g.tolist()[:12], **where)
             if np.any(g < 0) or np.any((g != 0) & (g.T != 0)):
                 return fail('both directions of a pair carry net flux (or negative net flux)',
-                            failing='net-one-direction', got=g.tolist(), **where)
+                            failing='net-one-direction', got=g.tolist()[:12], **where)
             if reversible:
                 inflow, outflow = g.sum(axis=0), g.sum(axis=1)
                 gs = max(float(np.max(g)), fs)
-                ctol = TOL * fac * gs          # conservation only needs a small residual of the committor system
+                # conservation only needs a small residual of the committor system and detailed balance of the
+                # populations used (computed ones are relative-accurate to dpi, float32 ones to 6e-8; single-precision
+                # eq_probs to ~1e-6) and rows that sum to 1 relative to the exit rate (binary64 input: minp)
+                ctol = (TOL * fac + (dpi if pops == 'none' else 0.0) + (1e-5 if f32 else 0.0) + minp) * gs
                 if inter and np.max(np.abs(inflow[inter] - outflow[inter])) > ctol:
-                    return fail('net flux not conserved at an intermediate state (residual %.3g)'
-                                % np.max(np.abs(inflow[inter] - outflow[inter])),
-                                failing='conservation', got=g.tolist(), **where)
+                    return fail('net flux not conserved at an intermediate state (residual %.3g, net flux scale %.3g)'
+                                % (np.max(np.abs(inflow[inter] - outflow[inter])), gs),
+                                failing='conservation', got=g.tolist()[:12], **where)
                 if flux_ok and np.max(np.abs(g[:, src])) > ftol:
-                    return fail('net flux flows into a source', failing='into-sources', got=g.tolist(), **where)
+                    return fail('net flux flows into a source', failing='into-sources', got=g.tolist()[:12], **where)
                 if flux_ok and np.max(np.abs(g[snk, :])) > ftol:
-                    return fail('net flux flows out of a sink', failing='out-of-sinks', got=g.tolist(), **where)
+                    return fail('net flux flows out of a sink', failing='out-of-sinks', got=g.tolist()[:12], **where)
                 if abs(outflow[src].sum() - inflow[snk].sum()) > n * ctol:
                     return fail('total outflow from sources %.12g != total inflow to sinks %.12g'
                                 % (outflow[src].sum(), inflow[snk].sum()), failing='total', **where)
                 # --- reactive populations
-                if zero_norm or not model_ok:
+                if zero_norm or (use_model and not model_ok):
                     ctx.skip('reactive populations: exact normaliser sum(pi q (1-q)) is 0 (no reactive intermediate state)')
                 elif not pop_ok:
                     ctx.skip('reactive populations: rounding allowance 2 dq / sum(pi q (1-q)) > 1 % (slowly mixing chain)')
                     if np.all(np.isfinite(rpop)) and abs(rpop.sum() - 1.0) > TOL:
                         return fail('reactive populations sum to %.12g' % rpop.sum(), failing='pop-sum',
-                                    got=rpop.tolist(), **where)
+                                    got=rpop.tolist()[:40], **where)
                 else:
                     if not np.all(np.isfinite(rpop)) or np.any(rpop < -ptol):
                         return fail('reactive populations not finite / negative', failing='pop-nonneg',
-                                    got=rpop.tolist(), **where)
+                                    got=rpop.tolist()[:40], **where)
                     if abs(rpop.sum() - 1.0) > TOL:
                         return fail('reactive populations sum to %.12g' % rpop.sum(), failing='pop-sum',
-                                    got=rpop.tolist(), **where)
+                                    got=rpop.tolist()[:40], **where)
                     if np.max(np.abs(rpop[src + snk])) > TIGHT:
                         return fail('reactive populations do not vanish on sources/sinks', failing='pop-boundary',
-                                    got=rpop.tolist(), **where)
+                                    got=rpop.tolist()[:40], **where)
                     if np.max(np.abs(rpop - dens_ref / N_ref)) > ptol:
                         return fail('reactive populations differ from pi q+ q- normalised', failing='pop-definition',
-                                    got=rpop.tolist(), **where)
+                                    got=rpop.tolist()[:40], **where)
+            if cont == 'npmatrix':
+                continue
             if dense_out is None:
-                dense_out = (f, g, rpop)
+                dense_out = (f, g, rpop, pops)
             else:
-                dvtol = (TOL + dpi) * max(fs, float(np.max(np.abs(dense_out[0]))))
+                loose = 1e-5 if (f32 or dense_out[3] == 'given-f32') else 0.0
+                dvtol = (TOL + dpi + loose) * max(fs, float(np.max(np.abs(dense_out[0]))))
                 if np.max(np.abs(f - dense_out[0])) > dvtol or np.max(np.abs(g - dense_out[1])) > 2 * dvtol:
                     return fail('fluxes differ between ndarray/first call and %s, populations=%s' % (cont, pops),
                                 failing='dense-vs-sparse', **where)
-                if reversible and model_ok and not zero_norm and pop_ok \
-                        and np.max(np.abs(rpop - dense_out[2])) > TOL + 2 * dpi:
+                if reversible and not zero_norm and pop_ok and (model_ok or not use_model) \
+                        and np.max(np.abs(rpop - dense_out[2])) > TOL + 2 * dpi + loose:
                     return fail('reactive populations differ between ndarray and %s' % cont,
                                 failing='dense-vs-sparse', **where)
-    # --- model vs real
+    # --- model vs real (first call: ndarray with the first populations form)
+    if not use_model:
+        return
     if not model_ok:
         ctx.disagreement('Model C08.tpt returned %s where the real code succeeded' % m, dict(case, model=m))
         return
-    f, g, rpop = dense_out
+    f, g, rpop, pops0 = dense_out
     mo = m['ok']
-    if not flux_ok:
+    loose = 1e-6 if pops0 == 'given-f32' else 0.0
+    mtol = ftol0 + (minp + loose) * fs0
+    if not (fs0 > 0 and mtol <= REL_CAP * fs0):
         return
-    if np.max(np.abs(base.fr_mat(mo['flux']) - f)) > ftol:
+    if np.max(np.abs(base.fr_mat(mo['flux']) - f)) > mtol:
         ctx.disagreement('Model Tpt.reactiveFluxes vs tpt.reactive_fluxes', dict(case, impl=f.tolist()))
         return
-    if np.max(np.abs(base.fr_mat(mo['net']) - g)) > 2 * ftol:
+    if np.max(np.abs(base.fr_mat(mo['net']) - g)) > 2 * mtol:
         ctx.disagreement('Model Tpt.netFluxes vs tpt.net_fluxes', dict(case, impl=g.tolist()))
         return
-    if not zero_norm and pop_ok and np.max(np.abs(base.fr_vec(mo['pop']) - rpop)) > ptol:
+    if not zero_norm and ptol0 <= REL_CAP \
+            and np.max(np.abs(base.fr_vec(mo['pop']) - rpop)) > ptol0 + 2 * minp / max(N0, 1e-300) + loose:
         ctx.disagreement('Model Tpt.reactivePopulations vs tpt.reactive_populations', dict(case, impl=rpop.tolist()))
         return
     if zero_norm:
@@ -228,22 +282,51 @@ def make_cases(ctx):
     rng = ctx.rng
     cases = []
     rot = [0]
+    ARGF = base.ARGFORMS
+    POPS = ['given', 'given-list', 'given-tuple', 'given-f32']
 
     def one_container():
         rot[0] += 1
         return [CONTAINERS[rot[0] % len(CONTAINERS)]]
 
-    def add(kind, T, A, B, containers, pops):
-        if kind in ('rev', 'meta-rev'):
-            pi = exact_pi_reversible(T)
-            assert base.is_reversible_pi(T, pi)
-            pij = [base._fr(x) for x in pi]
-        else:
-            pij = None          # filled from the model's exact eq_probs below
-        cases.append({'kind': kind, 'T': base.t_json(T), 'sources': A, 'sinks': B, 'pi': pij,
-                      'containers': containers, 'pops': pops,
-                      'argform': base.ARGFORMS[int(rng.integers(0, 3))]})
+    def dense_var(kind):
+        v = base.dense_variant(kind, rot[0])
+        return [] if v == 'npmatrix' else [v]        # np.matrix: see the known finding, exercised separately
 
+    def add(kind, T, A, B, containers, pops, mode, **extra):
+        rot[0] += 1
+        c = {'kind': kind, 'sources': [int(x) for x in A], 'sinks': [int(x) for x in B],
+             'containers': containers, 'pops': pops, 'mode': mode,
+             'argform': ARGF[int(rng.integers(0, len(ARGF)))],
+             'callstyle': 'kw' if rot[0] % 3 == 0 else 'positional'}
+        if isinstance(T, dict):
+            c['Tgen'] = T
+            c['model'] = False
+            c['pi'] = None
+        else:
+            if kind in REVERSIBLE_KINDS:
+                pi = exact_pi_reversible(T)
+                assert base.is_reversible_pi(T, pi)
+                c['pi'] = [base._fr(x) for x in pi]
+            else:
+                c['pi'] = None          # filled from the model's exact eq_probs below
+            c['T'] = base.t_json(T)
+        c.update(extra)
+        cases.append(c)
+
+    def popsel(r):
+        return ['none', POPS[r % 4]] if r % 2 else [POPS[r % 4], 'none']
+
+    # class 6 first: every sink id below every source id, unsorted order
+    for r in range(ctx.n(40, 500)):
+        n = int(rng.integers(4, 10))
+        kind = ['rev', 'rev-dyadic', 'rev', 'nonrev'][r % 4]
+        T = base.gen_chain(rng, n, kind)
+        A, B = base.sinks_below_sources(rng, n)
+        if len(A) + len(B) >= n:
+            A, B = A[:1], B[:1]
+        add(kind, T, A, B, (list(CONTAINERS) if r % 4 == 0 else one_container()) + dense_var(kind), popsel(r),
+            'sinks-below-sources', reuse=(r % 3 == 0))
     exhaustive = ctx.n({3: 6, 4: 4, 5: 1}, {3: 16, 4: 12, 5: 8, 6: 3, 7: 1})
     for n, reps in exhaustive.items():
         for r in range(reps):
@@ -253,47 +336,92 @@ def make_cases(ctx):
                     continue                      # never: every state a source or a sink
                 if rng.random() < 0.5:
                     A, B = A[::-1], B[::-1]
-                add('rev', T, list(A), list(B), one_container(), ['given'] if rot[0] % 2 else ['none'])
+                add('rev', T, list(A), list(B), one_container(), ['given'] if rot[0] % 2 else ['none'], 'exhaustive')
     for r in range(ctx.n(500, 4000)):
         n = int(rng.integers(3, 11))
-        kind = 'rev' if r % 5 else 'nonrev'
+        kind = ['rev', 'rev', 'rev-dyadic', 'rev', 'nonrev'][r % 5]
         T = base.gen_chain(rng, n, kind)
         A, B = base.random_set_pair(rng, n, need_free=1)
-        add(kind, T, A, B, list(CONTAINERS) if r % 2 == 0 else one_container(), ['given', 'none'])
+        add(kind, T, A, B, (list(CONTAINERS) if r % 2 == 0 else one_container()) + dense_var(kind), popsel(r),
+            'random', reuse=(r % 4 == 0))
     # metastable reversible chains (two/three basins, barrier weights ~10^U(-7,-4) of the in-basin weights): the
     # stationary vector is rowsum(C)/sum(C) in closed form; the library must find it itself when populations=None
     for r in range(ctx.n(40, 1200)):
         T = base.gen_chain(rng, 0, 'meta-rev')
         for _ in range(2):
             A, B = base.random_set_pair(rng, len(T), need_free=1)
-            add('meta-rev', T, A, B, list(CONTAINERS) if r % 4 == 0 else one_container(), ['none', 'given'])
+            add('meta-rev', T, A, B, list(CONTAINERS) if r % 4 == 0 else one_container(), ['none', 'given'],
+                'metastable')
+    # sources + sinks = all states but one (set sizes beyond 3)
+    for r in range(ctx.n(20, 300)):
+        n = int(rng.integers(3, 10))
+        kind = 'rev' if r % 3 else 'rev-dyadic'
+        A, B = base.split_all_but_one(rng, n)
+        add(kind, base.gen_chain(rng, n, kind), A, B, one_container() + dense_var(kind), popsel(r), 'all-but-one')
+    # a source adjacent only to a sink (every intermediate state has q = 1: nothing but the direct edge is reactive)
+    for r in range(ctx.n(10, 150)):
+        n = int(rng.integers(4, 9))
+        T, s, k = base.gen_pendant(rng, n)
+        add('pendant', T, [s], [k], list(CONTAINERS) if r % 3 == 0 else one_container(), popsel(r),
+            'source-adjacent-only-to-sink', reuse=True)
+    # self-transition probability 1 - 1e-6 / 1 - 1e-9; entries ~1e-13 next to O(1)
+    for r in range(ctx.n(16, 300)):
+        n = int(rng.integers(3, 9))
+        kind = 'sticky' if r % 2 else 'tiny-rev'
+        T = base.gen_chain(rng, n, kind)
+        A, B = base.random_set_pair(rng, n, need_free=1)
+        add(kind, T, A, B, list(CONTAINERS) if r % 3 == 0 else one_container(), ['none', 'given'], 'scale',
+            reuse=(r % 2 == 0))
+    # more than 255 states (reversible banded chain; ids above 255; oracle only)
+    for r in range(ctx.n(1, 6)):
+        n = base.LARGE_N[r % len(base.LARGE_N)]
+        hi = [int(x) for x in rng.choice(np.arange(256, n), size=min(2, n - 256), replace=False)]
+        lo = [int(x) for x in rng.choice(256, size=3, replace=False)]
+        A, B = (hi[:1] + lo[:1], hi[1:] + lo[1:]) if r % 2 == 0 else (lo[:2], hi + lo[2:])
+        add('banded', {'family': 'banded', 'n': n, 'seed': int(rng.integers(0, 2 ** 31))}, A, B,
+            ['csr_matrix', 'lil_matrix', 'fortran'], ['none', 'given'], 'large-n',
+            argform=['uint16', 'int16', 'int32', 'list', 'tuple', 'uint8'][r % 6], reuse=(r == 0))
+    # np.matrix input (what scipy's .todense() returns): see known_findings.d/C08.json
+    for r in range(ctx.n(4, 40)):
+        n = int(rng.integers(3, 8))
+        T = base.gen_chain(rng, n, 'rev')
+        A, B = base.random_set_pair(rng, n, need_free=1)
+        add('rev', T, A, B, ['npmatrix'], ['given'], 'np-matrix')
     # exact stationary vectors of the non-reversible chains from the model's certified solver
-    idx = [i for i, c in enumerate(cases) if c['pi'] is None]
+    idx = [i for i, c in enumerate(cases) if c['pi'] is None and 'T' in c]
     resp = ctx.driver([{'op': 'C08.eq_probs', 'T': cases[i]['T']} for i in idx])
-    keep = []
+    drop = []
     for i, r in zip(idx, resp):
         if 'ok' in r:
             cases[i]['pi'] = r['ok']
         else:
             ctx.disagreement('Model eqProbs failed on an irreducible chain: %s' % r, cases[i])
-            keep.append(i)
-    return [c for i, c in enumerate(cases) if i not in keep]
+            drop.append(i)
+    return [c for i, c in enumerate(cases) if i not in drop]
 
 
 def run_cases(ctx, cases):
-    reqs = []
+    from threadpoolctl import threadpool_limits
+    reqs, spans = [], []
     for c in cases:
-        reqs += requests(c)
+        rq = requests(c)
+        spans.append((len(reqs), len(reqs) + len(rq)))
+        reqs += rq
     resp = ctx.driver(reqs)
-    for c, r in zip(cases, resp):
-        check_case(ctx, c, [r])
+    with threadpool_limits(limits=1):      # small matrices: multi-threaded LAPACK only burns CPU
+        for c, (a, b) in zip(cases, spans):
+            check_case(ctx, c, resp[a:b])
 
 
 def run(ctx):
     run_cases(ctx, make_cases(ctx))
-    ctx.note('tolerances', {'definition/conservation': TOL, 'boundary_abs': TIGHT})
+    ctx.note('tolerances', {'definition/conservation': TOL, 'boundary_abs': TIGHT,
+                            'relative_to': 'flux scale; allowances propagated from dq=2e-15/min(gap, exit), dpi'})
+
+
+REPLAY_KEYS = ('kind', 'T', 'Tgen', 'model', 'sources', 'sinks', 'pi', 'containers', 'pops', 'argform', 'callstyle',
+               'reuse', 'mode')
 
 
 def replay(ctx, data):
-    keys = ('kind', 'T', 'sources', 'sinks', 'pi', 'containers', 'pops', 'argform')
-    run_cases(ctx, [{k: data[k] for k in keys}])
+    run_cases(ctx, [{k: data[k] for k in REPLAY_KEYS if k in data}])
